@@ -144,6 +144,19 @@ def run(ctx):
         r2.check(ok_, "gate-per-user-pool:" + f_, "a fresh `%s` (%s) is allocated inside the per-user loop that builds the pool" % (f_, ", ".join(al_)),
                  "`%s` is allocated outside the per-user loop of from_config: the pools of all users of a [pools.X] section share one gate" % f_)
     r2.check(fresh >= 2, "per-pool-gate", "every ConnectionPool is built with its own flag and Notify", "ConnectionPool construction no longer creates its own pause flag / Notify")
+    # a reload is not a RESUME: from_config opens the gate only of pools that left the map (their clients must get an error, D71). A pool that is still in the
+    # map - unchanged, or rebuilt under the same key - shares its gate with the pool that replaces it: resuming the old object resumes the new one, a PAUSE in
+    # force is silently undone (round 10: `resume every previous pool that is no longer in use`)
+    fc2 = F.body("pgcat::pool::ConnectionPool::from_config::{closure#0}")
+    if fc2 is None:
+        r2.missing("ConnectionPool::from_config")
+    else:
+        ckT2, ckF2, _ = call_bool_edges(fc2, "re:^std::collections::hash::map::HashMap<.*>::contains_key$|^std::collections::hash::map::HashMap::contains_key$", switches_cache=switches(fc2))
+        for k_, c in enumerate(fc2.calls(RESUME)):
+            gated = bool(ckF2) and fc2.uncrossed_path([0], [c.block], edges=set(ckF2)) is None
+            r2.check(gated, "reload-resumes-only-removed-pools#%d" % k_, "from_config resumes a previous pool only where the new map was found not to contain its key",
+                     "from_config resumes a pool of the previous map without having found its key missing from the new map: a pool rebuilt (or kept) under the same key shares the pause flag and the Notify of the "
+                     "pool it replaces - the PAUSE in force on it is undone by the reload, held clients check out, new ones are not held, no RESUME was issued", c.where())
     # ---------------- R3
     r3 = ctx.rule("C16-R3", "every checkout in Client::handle is preceded, in the same idle-loop iteration, by wait_paused(), and nothing is sent to a server before it", floor=2)
     h = ctx.body(H, r3)
